@@ -32,6 +32,10 @@ def build_evse(sid, e):
     raise ValueError(e)
 
 
+class LoggingInterface(sut.Interface):
+    """User extension: Simulator(interface_type=...) with a subclass of Interface that adds nothing."""
+
+
 class LoggingBattery(sut.Battery):
     """User extension: a Battery subclass whose overrides delegate to the base class."""
 
@@ -167,10 +171,13 @@ def build_sim(sc, party, network=None, reuse_evs=None, reuse_queue=None, later=N
                 return {}
         first = _Placeholder()
         first.max_recompute = sc["sim"]["built_with_max_recompute"]
+    kw = {}
+    if sc["sim"].get("iface_sub"):
+        kw["interface_type"] = LoggingInterface
     sim = sut.Simulator(nw, first, q, build_start(sc["sim"]), period=sc["sim"]["period"],
                         signals=build_signals(sc["sim"]),
                         store_schedule_history=sc["sim"].get("store_schedule_history", False),
-                        verbose=False)
+                        verbose=bool(sc["sim"].get("verbose", False)), **kw)
     if first is not party:
         sim.update_scheduler(party)
     return sim
